@@ -101,6 +101,11 @@ def run(obs, scratch, scratch_repo, log, seed=0):
         keys = sorted(groups, key=lambda k: (k[2] != "heavy", -len(groups[k])))
         par = min(3, len(keys))
         jobs_each = JOBS if par == 1 else (10 if par == 2 else 7)
+        # split the cores over the first `par` groups in proportion to their weight (heavy harnesses count double)
+        wt = {k: len(groups[k]) * (2 if k[2] == "heavy" else 1) for k in keys}
+        first = keys[:par]
+        tot = sum(wt[k] for k in first) or 1
+        share = {k: (max(2, int(round((JOBS + 2) * wt[k] / tot))) if k in first else jobs_each) for k in keys}
 
         def one(key):
             crate, checks, weight = key
@@ -113,7 +118,7 @@ def run(obs, scratch, scratch_repo, log, seed=0):
             if os.path.exists(json_out):
                 os.remove(json_out)
             crate_dir = os.path.join(scratch_repo, crate)
-            nj = min(jobs_each if par < 3 else (10 if weight == "heavy" else 4), len(g))
+            nj = min(share[key], len(g))
             cmd = kani_cmd(crate_dir, [o.fqn for o in g], checks, timeout, json_out, nj)
             t0 = time.time()
             overall = timeout * (1 + len(g) // max(nj, 1)) + 900
